@@ -1101,4 +1101,102 @@ theorem fixed_no_lost_wakeup (cap : Nat) (ps : List (List Call)) (sched : List C
   have := (deadlocked_sleepers _ (inv_run cap ps sched) hd t ht).1 hsl
   rw [this] at hp; cases hp
 
+/-! ## the pop log only grows; draining a closed queue -/
+
+theorem takeBody_takes (l : Loc) (d : Data) : ∃ xs, (takeBody l d).2.takes = d.takes ++ xs := by
+  unfold takeBody; cases d.q with
+  | nil => exact ⟨[], by simp⟩
+  | cons x xs => exact ⟨[(l.me, x)], rfl⟩
+
+theorem putBody_takes (l : Loc) (d : Data) (v : Val) : (putBody l d v).2.takes = d.takes := by
+  unfold putBody; split <;> rfl
+
+theorem after_takes (l : Loc) (d : Data) (late : Bool) : ∃ xs, (after true l d late).2.takes = d.takes ++ xs := by
+  have same : ∃ xs : List (Tid × Val), d.takes = d.takes ++ xs := ⟨[], by simp⟩
+  have hT := takeBody_takes l d
+  have hP : ∀ v, ∃ xs, (putBody l d v).2.takes = d.takes ++ xs := fun v => ⟨[], by simp [putBody_takes]⟩
+  unfold after
+  cases l.pc <;> simp only [begin_fixed_data, ret_fixed_data] <;> try exact same
+  · unfold entered
+    cases l.todo with
+    | nil => exact same
+    | cons c rest => cases c <;> simp only <;> (repeat' split) <;> first | exact same | exact hT | exact hP _
+  · unfold rewoken
+    cases l.todo with
+    | nil => exact same
+    | cons c rest => cases c <;> simp only <;> (repeat' split) <;> first | exact same | exact hT | exact hP _
+  · unfold rewoken
+    cases l.todo with
+    | nil => exact same
+    | cons c rest => cases c <;> simp only <;> (repeat' split) <;> first | exact same | exact hT | exact hP _
+
+theorem tr_takes (s s' : State Data Loc) (tr : Tr (prog true) s s') : ∃ xs, s'.data.takes = s.data.takes ++ xs := by
+  cases tr <;> first | exact ⟨[], (List.append_nil _).symm⟩ | exact after_takes _ _ _
+
+theorem run_takes (s : State Data Loc) (sched : List Choice) : ∃ xs, (run (prog true) s sched).data.takes = s.data.takes ++ xs := by
+  induction sched generalizing s with
+  | nil => exact ⟨[], by simp [run]⟩
+  | cons c cs ih =>
+    rw [run_cons]
+    obtain ⟨ys, hy⟩ := ih (step (prog true) s c)
+    rcases step_tr (prog true) s c with e | t
+    · exact ⟨ys, by rw [hy, e]⟩
+    · obtain ⟨xs, hx⟩ := tr_takes s _ t
+      exact ⟨xs ++ ys, by rw [hy, hx, List.append_assoc]⟩
+
+theorem run_append (P : Prog Data Loc) (s : State Data Loc) (a b : List Choice) : run P s (a ++ b) = run P (run P s a) b := by
+  simp [run, List.foldl_append]
+
+/-- **draining a closed queue**: from a closed reachable state on, whatever the schedule, the items taken from then on are
+exactly a prefix of the queue content at that moment, in order, and what remains queued is the rest -/
+theorem drain_after_close (cap : Nat) (ps : List (List Call)) (sched more : List Choice)
+    (hc : (run (prog true) (init cap ps) sched).data.closed = true) :
+    ∃ taken, (run (prog true) (run (prog true) (init cap ps) sched) more).data.takes.map (·.2) =
+        (run (prog true) (init cap ps) sched).data.takes.map (·.2) ++ taken ∧
+      taken ++ (run (prog true) (run (prog true) (init cap ps) sched) more).data.q = (run (prog true) (init cap ps) sched).data.q := by
+  have h1 := (inv_run cap ps sched).cons
+  have h2 := (inv_run cap ps (sched ++ more)).cons
+  rw [run_append] at h2
+  have hp := (closed_run _ hc more).1
+  obtain ⟨xs, hx⟩ := run_takes (run (prog true) (init cap ps) sched) more
+  refine ⟨xs.map (·.2), by rw [hx]; simp, ?_⟩
+  rw [hp, h1, hx, List.map_append, List.append_assoc] at h2
+  exact (List.append_cancel_left h2).symm
+
+/-- a take that gets the mutex on a closed EMPTY queue returns `false` without waiting -/
+theorem entered_closed_empty (l : Loc) (d : Data) (rest : List Call) (c : Call)
+    (hc : c = .dequeue ∨ c = .dequeueFor ∨ c = .tryDequeue) (ht : l.todo = c :: rest) (hq : d.q = []) (hcl : d.closed = true) :
+    (entered l d).1.pc = .unlockRet (.item none) ∧ (entered l d).2 = d := by
+  rcases hc with rfl | rfl | rfl <;> simp [entered, ht, predNE, takeBody, hq, hcl]
+
+/-! ## in EVERY reachable state a wake-up is in the pipeline for every sleeper whose condition holds -/
+
+theorem wakeup_pending (s : State Data Loc) (h : Inv s) (t : Tid) (ht : t < s.n) :
+    (isAsleepOn NE (s.thr t) = true → predNE s.data = true →
+        ∃ u, u < s.n ∧ (creditOn NE (s.thr u) = true ∨ closerFor NE (s.thr u) = true)) ∧
+    (isAsleepOn NF (s.thr t) = true → predNF s.data = true →
+        ∃ u, u < s.n ∧ (creditOn NF (s.thr u) = true ∨ closerFor NF (s.thr u) = true)) := by
+  constructor
+  · intro hsl hp
+    cases hc : s.data.closed with
+    | true => obtain ⟨u, hu, hx⟩ := h.closeNE hc ⟨t, ht, hsl⟩; exact ⟨u, hu, Or.inr hx⟩
+    | false =>
+      have hcr := h.credNE ⟨t, ht, hsl⟩ hc
+      have hq : 0 < s.data.q.length := by
+        simp only [predNE, hc, Bool.or_false, Bool.not_eq_true'] at hp
+        cases hq : s.data.q with
+        | nil => rw [hq] at hp; simp at hp
+        | cons x xs => simp
+      obtain ⟨u, hu, hx⟩ := exists_of_cnt_pos (creditOn NE) s.thr s.n (by omega)
+      exact ⟨u, hu, Or.inl hx⟩
+  · intro hsl hp
+    cases hc : s.data.closed with
+    | true => obtain ⟨u, hu, hx⟩ := h.closeNF hc ⟨t, ht, hsl⟩; exact ⟨u, hu, Or.inr hx⟩
+    | false =>
+      have hcr := h.credNF ⟨t, ht, hsl⟩ hc
+      have hq : s.data.q.length < s.data.cap := by
+        simpa [predNF, hc] using hp
+      obtain ⟨u, hu, hx⟩ := exists_of_cnt_pos (creditOn NF) s.thr s.n (by omega)
+      exact ⟨u, hu, Or.inl hx⟩
+
 end Iora.BQ
